@@ -272,6 +272,21 @@ class Builder:
         return out
 
 
+def eh_frame(b, fdes):
+    """.eh_frame: one CIE with augmentation "zR" (FDE pointers pcrel|sdata4) and the given FDEs (loc, range, instrs),
+    closed by a zero terminator"""
+    def pad(x, n=8):
+        return x + b'\0' * (-(len(x) + 4) % n)
+    cie_body = pad(b.u(4, 0) + b.u(1, 1) + b'zR\0' + uleb(1) + sleb(-8) + b.u(1, 16) + uleb(1) + bytes([0x1b]) +
+                   bytes([0x0c, 7, 8, 0x90, 1]))
+    out = b.u(4, len(cie_body)) + cie_body
+    for loc, rng, instrs in fdes:
+        p = len(out)
+        body = pad(b.u(4, p + 4) + b.u(4, loc & 0xffffffff) + b.u(4, rng) + uleb(0) + instrs)
+        out += b.u(4, len(body)) + body
+    return out + b.u(4, 0)
+
+
 def elf_image(le, is64, sections, symbols, dyn_tags, dynstr, machine):
     """sections: list of (name, sh_type, data, flags).  Adds the null section, .symtab/.strtab,
     .dynamic/.dynstr, .shstrtab, one PT_LOAD and one PT_DYNAMIC."""
@@ -354,10 +369,10 @@ def _sym(name, value, info=0x12, shndx=1, size=4):
     return (name, value, size, info, shndx)
 
 
-def file_a():
+def file_a(le=True):
     """ELF64 LE; two DWARF 4 units; unit 0 has a subtree without DW_AT_sibling, one with it (ref4),
     a local (ref4) and a global (ref_addr) reference; both units share line program 0."""
-    b = Builder(True)
+    b = Builder(le)
     u0 = Unit(4, Die(DW_TAG_compile_unit,
                      [(DW_AT_producer, F_strp, ('str', b'verif-cc 1.0')), (DW_AT_name, F_strp, ('str', b'a.c')),
                       (DW_AT_stmt_list, F_sec_offset, 0), (DW_AT_low_pc, F_addr, 0x1000)],
@@ -380,12 +395,14 @@ def file_a():
     line = b.line_v4(4, [(b'a.c', 0), (b'b.c', 0)], prog)
     frame = b.frame([(0x1000, 0x20, bytes([0x41, 0x0e, 16, 0x83, 3])), (0x1020, 0x10, bytes([0x42, 0x0e, 24, 0x86, 2]))])
     dynstr = b'\0libc.so.6\0liba.so\0'
-    img = elf_image(True, True,
+    eh = eh_frame(b, [(0x100, 0x20, bytes([0x41, 0x0e, 16, 0x83, 3])), (0x200, 0x10, bytes([0x42, 0x0e, 24, 0x86, 2]))])
+    img = elf_image(le, True,
                     [(b'.text', 1, b'\x90' * 32, 6), (b'.debug_info', 1, info, 0), (b'.debug_abbrev', 1, abbrev, 0),
-                     (b'.debug_str', 1, bytes(b.strtab), 0), (b'.debug_line', 1, line, 0), (b'.debug_frame', 1, frame, 0)],
+                     (b'.debug_str', 1, bytes(b.strtab), 0), (b'.debug_line', 1, line, 0), (b'.debug_frame', 1, frame, 0),
+                     (b'.eh_frame', 1, eh, 2)],
                     [_sym(b'', 0, 0, 0, 0), _sym(b'f', 0x1000), _sym(b'dup', 0x1004), _sym(b'g', 0x2000, 0x11), _sym(b'dup', 0x1008)],
                     [(1, 1), (14, 11), (5, 0x400), (0, 0), (21, 0), (0x6ffffffb, 1)], dynstr, 62)
-    return dict(name='A', image=img, labels=labels, units=[u0.off, u1.off])
+    return dict(name='A' if le else 'Abe', image=img, labels=labels, units=[u0.off, u1.off])
 
 
 def file_b():
